@@ -22,12 +22,17 @@ def gen_inputs(ctx):
         ks.append((rng.randrange(1 << (8 * (32 - z) - 8), 1 << (8 * (32 - z))), "lz%d" % z))
     for _ in range(8 if q else 100):
         ks.append((rng.randrange(1, N), "rand"))
+    # scalars whose trailing bytes look like the WIF compression flag / whose leading byte looks like a version
+    for v in (0x0101, 0x01 << 8 | 0x01, (0xab << 248) | 0x01, (0x80 << 248) | 0x0101, (0xef << 248) | 1, 257, 0x010101, N - 0x40 + 0):
+        ks.append((v % N or 1, "flag-like"))
+    for _ in range(4 if q else 30):
+        ks.append(((rng.randrange(1, N) >> 8 << 8) | 0x01, "flag-like"))
     ks = [(k, c) for k, c in ks if 0 < k < N]
     for k, kc in ks:
         out.append(("PubOf", b32(k), ("pubof", kc)))
         for comp in (True, False):
             for net in ("main", "test"):
-                if q and rng.random() < 0.5:
+                if q and rng.random() < 0.5 and kc not in ("1", "2", "n-1", "n-2", "flag-like"):
                     continue
                 out.append(("Wif", {"k": b32(k), "compressed": comp, "net": net}, ("wif", comp, net, kc)))
                 payload = bytes([0xef if net == "test" else 0x80]) + k.to_bytes(32, "big") + (b"\x01" if comp else b"")
